@@ -560,6 +560,21 @@ Section FirstFuel.
     unfold first_sets, first_fuel. apply first_iter_total; [apply fs_inv_init|]. lia.
   Qed.
 
+  Lemma first_iter_inv fuel : forall fs fs',
+    fs_inv fs -> first_iter e fuel ps fs = Some fs' -> fs_inv fs'.
+  Proof.
+    induction fuel as [|f IH]; intros fs fs' Hinv H; [discriminate|].
+    cbn [first_iter] in H. unfold first_round in H.
+    destruct (first_fold_measure ps (fs, false) (fun p Hp => Hp) Hinv) as (Hi1 & _ & _).
+    cbn zeta in Hi1.
+    destruct (snd (fold_left _ ps (fs, false))).
+    - eapply IH; eassumption.
+    - inversion H; subst. exact Hi1.
+  Qed.
+
+  Theorem first_inv fuel fs : first_sets e fuel nnts ps = Some fs -> fs_inv fs.
+  Proof. unfold first_sets. apply first_iter_inv. apply fs_inv_init. Qed.
+
   (* more fuel does not change the result *)
   Lemma first_iter_more fuel : forall k fs r,
     first_iter e fuel ps fs = Some r -> first_iter e (fuel + k) ps fs = Some r.
